@@ -483,7 +483,7 @@ impl C03 {
             let mut doc = gen_zinc::gen_doc(&mut rng, &cfg, None);
             let cap = if self.ctx.tier == Tier::Quick { 160 } else { 400 };
             if doc.text.len() > cap {
-                doc = gen_zinc::gen_doc(&mut rng, &GenCfg { max_depth: 1, max_items: 2, max_rows: 2, max_cols: 2, ..cfg }, None);
+                doc = gen_zinc::gen_doc(&mut rng, &GenCfg { max_depth: 1, max_items: 2, max_rows: 2, max_cols: 2, big: None, ..cfg }, None);
             }
             if doc.text.len() > 2 * cap {
                 continue;
@@ -496,7 +496,7 @@ impl C03 {
             let mut doc = gen_json::gen_doc(&mut rng, &cfg);
             let cap = if self.ctx.tier == Tier::Quick { 200 } else { 500 };
             if doc.len() > cap {
-                doc = gen_json::gen_doc(&mut rng, &JsonCfg { max_depth: 1, max_items: 2, ..cfg });
+                doc = gen_json::gen_doc(&mut rng, &JsonCfg { max_depth: 1, max_items: 2, big: None, ..cfg });
             }
             if doc.len() > 2 * cap {
                 continue;
